@@ -13,6 +13,10 @@ package cpusuppress
 //          op 0 = apply : 0 newset oldflag oldset   (oldflag 0: oldCPUSet = the BE root's current
 //                                                    cpuset, as adjustByCPUSet passes it; 1: oldset)
 //          op 1 = expire: 1 dir how
+//          op 2 = recover: 2 newset variant nex ex[nex]   (same plugin instance and executor)
+//                 variant 0: recoverCPUSetForBECPUManager; ex = pod dirs with a specified cpuset
+//                 variant 1: recoverCPUSetIfNeed(container depth)   variant 2: recoverCPUSetIfNeed(pod depth)
+//                 newset = the cpu ids of the node (NodeCPUInfo); nothing reserved, no LSE pods
 //          cpu sets are bit masks of cpu ids
 // output : per apply op:  nw { dir content }*nw  snapshot[nd]
 
@@ -25,7 +29,16 @@ import (
 	"testing"
 	"time"
 
+	topov1alpha1 "github.com/k8stopologyawareschedwg/noderesourcetopology-api/pkg/apis/topology/v1alpha1"
+	"go.uber.org/mock/gomock"
 	corev1 "k8s.io/api/core/v1"
+	metav1 "k8s.io/apimachinery/pkg/apis/meta/v1"
+
+	apiext "github.com/koordinator-sh/koordinator/apis/extension"
+	"github.com/koordinator-sh/koordinator/pkg/koordlet/metriccache"
+	mockmetriccache "github.com/koordinator-sh/koordinator/pkg/koordlet/metriccache/mockmetriccache"
+	"github.com/koordinator-sh/koordinator/pkg/koordlet/statesinformer"
+	mockstatesinformer "github.com/koordinator-sh/koordinator/pkg/koordlet/statesinformer/mockstatesinformer"
 
 	"github.com/koordinator-sh/koordinator/pkg/koordlet/resourceexecutor"
 	koordletutil "github.com/koordinator-sh/koordinator/pkg/koordlet/util"
@@ -213,6 +226,44 @@ func vtC12BERun(in []int64) []int64 {
 			obs = append(obs, env.nw)
 			obs = append(obs, env.writes...)
 			obs = append(obs, env.snapshot()...)
+		case 2:
+			newset, variant, nex := next(), next(), int(next())
+			var pods []*statesinformer.PodMeta
+			for j := 0; j < nex; j++ {
+				d := int(next())
+				pods = append(pods, &statesinformer.PodMeta{
+					CgroupDir: fmt.Sprintf("n%02d", d),
+					Pod: &corev1.Pod{ObjectMeta: metav1.ObjectMeta{
+						Name: fmt.Sprintf("p%02d", d), Namespace: "ns", UID: "uid",
+						Annotations: map[string]string{apiext.AnnotationResourceStatus: `{"cpuset": "0"}`},
+					}},
+				})
+			}
+			var info metriccache.NodeCPUInfo
+			for _, id := range vtC12Mask2Ids(newset) {
+				info.ProcessorInfos = append(info.ProcessorInfos, koordletutil.ProcessorInfo{CPUID: id, CoreID: id / 2})
+			}
+			ctl := gomock.NewController(t)
+			si := mockstatesinformer.NewMockStatesInformer(ctl)
+			si.EXPECT().GetAllPods().Return(pods).AnyTimes()
+			si.EXPECT().GetNodeTopo().Return(&topov1alpha1.NodeResourceTopology{}).AnyTimes()
+			mc := mockmetriccache.NewMockMetricCache(ctl)
+			mc.EXPECT().Get(metriccache.NodeCPUInfoKey).Return(&info, true).AnyTimes()
+			r.statesInformer, r.metricCache = si, mc
+			env.writes, env.nw = nil, 0
+			switch variant {
+			case 0:
+				r.recoverCPUSetForBECPUManager()
+			case 1:
+				r.recoverCPUSetIfNeed(koordletutil.ContainerCgroupPathRelativeDepth)
+			default:
+				r.recoverCPUSetIfNeed(koordletutil.PodCgroupPathRelativeDepth)
+			}
+			env.after()
+			ctl.Finish()
+			obs = append(obs, env.nw)
+			obs = append(obs, env.writes...)
+			obs = append(obs, env.snapshot()...)
 		case 1:
 			d, how := int(next()), next()
 			key := env.paths[d]
@@ -296,11 +347,53 @@ func vtC12BEGen(r *rand.Rand, i int) (string, []int64) {
 		}
 	}
 	in = append(in, cur...)
+	dep := make([]int, nd)
+	for d := 1; d < nd; d++ {
+		dep[d] = dep[par[d]] + 1
+	}
 	nops := 1 + r.Intn(3)
 	in = append(in, int64(nops))
 	for o := 0; o < nops; o++ {
 		if o > 0 && r.Intn(4) == 0 {
 			in = append(in, 1, int64(r.Intn(nd)), int64(r.Intn(2)))
+			continue
+		}
+		if r.Intn(3) == 0 {
+			// recover: usually a growth of what the subtree holds now
+			nw := cur[0] | rnd()
+			if malformed || r.Intn(8) == 0 {
+				nw = rnd()
+			}
+			variant := r.Intn(3)
+			if r.Intn(2) == 0 {
+				variant = 0
+			}
+			var ex []int64
+			if variant == 0 {
+				for d := 1; d < nd; d++ {
+					if dep[d] == 1 && r.Intn(3) == 0 {
+						ex = append(ex, int64(d))
+					}
+				}
+			}
+			in = append(in, 2, nw, int64(variant), int64(len(ex)))
+			in = append(in, ex...)
+			isEx := func(d int) bool {
+				for _, x := range ex {
+					if int(x) == d {
+						return true
+					}
+				}
+				return false
+			}
+			for d := 0; d < nd; d++ {
+				switch {
+				case dep[d] <= 1:
+					cur[d] = nw
+				case variant == 1 || (variant == 0 && !isEx(par[d])):
+					cur[d] = nw
+				}
+			}
 			continue
 		}
 		var nw int64
